@@ -18,7 +18,7 @@ PROP = dict(
     theorems=["C01_schemas_ok", "C01_size", "C01_size_exact", "C01_aligned", "C01_roundtrip", "C01_exempt",
               "C01_exempt_nothing_else", "C01_erase_id", "C01_nonvacuous",
               "C01_refuted_empty_predicate", "C01_refuted_empty_data", "C01_refuted_maturity", "C01_refuted_expiration",
-              "C01_refuted_unset_nonzero", "C01_refuted_above_limit", "C01_refuted_tx"],
+              "C01_refuted_unset_nonzero", "C01_refuted_above_limit", "C01_refuted_tx", "C01_refuted_unknown_policy_bits"],
     open_statements=[],
     translators=["schemas"],
     trusted_base=CODEC_TRUSTED,
@@ -41,9 +41,9 @@ PROP = dict(
                 "and returns the value with exactly the #[canonical(skip)] fields defaulted (receipt data, panic reason, panic contract id, metadata: computed from the schemas and "
                 "stated in C01_exempt) - under the hypothesis wf whose every conjunct is shown necessary by a C01_refuted_* witness replayed on the real code. The schemas are "
                 "regenerated from the Rust sources on every check; the hand-written model of canonical.rs/Policies/Input/Transaction is tied by a differential run."),
-    level_note=("All 16 theorems proved, Closed under the global context. The model is a model: its tie to /repo is the translator (derive items) + SHA-256 pins of the hand-modelled impls + "
+    level_note=("All 17 theorems proved, Closed under the global context. The model is a model: its tie to /repo is the translator (derive items) + SHA-256 pins of the hand-modelled impls + "
                 "the differential run (testing). Findings reported by the oracle on the unchanged tree: empty-predicate-input, empty-data-message-input, policy-maturity-above-u32, "
-                "policy-expiration-above-u32, policy-unset-bit-nonzero-value (reachable only through the legacy serde layout), vector-above-decode-limit (to_bytes panics)."),
+                "policy-expiration-above-u32, policy-unset-bit-nonzero-value (reachable only through the legacy serde layout), policy-unknown-bits (reachable only through binary serde: size() counts a bit encode() ignores), vector-above-decode-limit (to_bytes panics)."),
     technique="Coq proof by induction over a schema universe (two-phase static/dynamic codec) + translator Rust->schemas + differential model/impl run + round-trip oracle",
     design_ref="6/C01",
     quick_shards=8,
